@@ -18,7 +18,47 @@ func blsProbe(args []string) error {
 	fs := flag.NewFlagSet("blsprobe", flag.ExitOnError)
 	k := fs.Int("clusters", 200, "clusters")
 	scheme := fs.String("scheme", crypto.NameBLS12, "scheme")
+	agg := fs.Int("agg", 0, "aggregate probe: this many rounds of sign x3, combine, verify on one cluster")
 	_ = fs.Parse(args)
+	if *agg > 0 {
+		var secs []*hx.Sec
+		bad := 0
+		for i := 0; i < *agg; i++ {
+			if i%3 == 0 { // fresh keys every third round
+				var err error
+				secs, err = hx.NewSecCluster(hx.SecOpts{N: 4, Scheme: *scheme})
+				if err != nil {
+					return err
+				}
+			}
+			msg := hotstuff.View(i + 1).ToBytes()
+			var sigs []hotstuff.QuorumSignature
+			for _, s := range secs[1:] {
+				sig, err := s.Base.Sign(msg)
+				if err != nil {
+					return err
+				}
+				if err := secs[1].Base.Verify(sig, msg); err != nil {
+					fmt.Printf("round %d: single signature of %d rejected: %v\n", i, s.ID, err)
+				}
+				sigs = append(sigs, sig)
+			}
+			c, err := secs[1].Base.Combine(sigs...)
+			if err != nil {
+				return err
+			}
+			if err := secs[1].Base.Verify(c, msg); err != nil {
+				bad++
+				fmt.Printf("round %d: aggregate of three valid signatures rejected: %v\n", i, err)
+				for _, s := range secs[1:] {
+					fmt.Printf("  pub %d = %x\n", s.ID, s.Key.Public().(*crypto.BLS12PublicKey).ToBytes())
+				}
+				fmt.Printf("  msg = %x\n", msg)
+			}
+		}
+		fmt.Println("aggregate failures:", bad, "of", *agg)
+		return nil
+	}
 	fail := 0
 	for c := 0; c < *k; c++ {
 		secs, err := hx.NewSecCluster(hx.SecOpts{N: 4, Scheme: *scheme})
